@@ -323,7 +323,7 @@ FIXED = [
     "ob:c2:c4:n,i,b1:1x4:0:2:- sec:0:N S0.0=g1[((o0*4)+i0)] sec:-:N F{L0=0;R1,c4{L0=(l0+s0[l1])};B2.0=l0}",
     # helper function, @restrict, @max_inner_dims with run-time inner extent, @simd_length
     "kf4 args:5,3 garr:15,15 ob:a1:a0:i,t1:1x5:1:1:m8+s16+r sec:0:N X0=(g0[i0]#o0) S0.0=(x0-i0) "
-    "sec:-:N O1.0=(s0[m(((i0+1)),5)]#x0)",
+    "sec:-:N O1.0=(s0[m((i0+1),5)]#x0)",
 ]
 
 # the known finding: 1100 inner iterations with run-time bounds and an @exclusive variable
